@@ -155,7 +155,7 @@ CHECKS = {
              "result and its writes through &mut parameters unchanged; async flavours run nothing at construction or when dropped unpolled and exactly once per await. RPIT futures on `&mut self`/Pin "
              "receivers are excluded as known finding F4 (expansion does not compile). Tied to /repo by generating traits over the grammar (pairwise covering + random, distinct ids, same-typed "
              "neighbours), compiling them with the real macro into one crate and comparing per method what matcher, answer, caller and evaluation counters observed with the model's prediction. "
-             "The Unmock arm is part of the model: the function registered by unmock_with (path form, or an explicit list of `self` / parameter identifiers, any duplicate-free in-range list) receives the mock and exactly those values (C05_unmock_arm), and the entry used is the one written at the method's own position among ALL fn items, skipped receiver-less functions included (C05_unmock_slot); generated traits carry unmock_with entries in every form and skipped functions at random positions.",
+             "The Unmock arm is part of the model: the function registered by unmock_with (path form, or an explicit list of `self` / parameter identifiers, any duplicate-free in-range list) receives the mock and exactly those values (C05_unmock_arm), and the entry used is the one written at the method's own position among ALL fn items, skipped receiver-less functions included (C05_unmock_slot); generated traits carry unmock_with entries in every form and skipped functions at random positions. A matcher-trace part (Layer A calls through an argument type with a counting / panicking Debug impl) checks that answered calls run no user code of the argument types.",
         design_ref="DESIGN.md section 7, C05",
         technique="Coq proof (induction over parameter lists; body AST under a move-semantics environment) + generated-program co-execution against the real proc macro"),
     "C17": dict(
